@@ -160,7 +160,7 @@ BAD_PARAMS = [
 ]
 
 
-ODD_VALUES = ["[]", "{}", '""', "null", "~", "0", "-1", "true", "[[]]", '[""]', '{"": ""}', "1.5", '"' + "x" * 5000 + '"', '" "', '"\\n"', "[1, [2, [3]]]",
+ODD_VALUES = ["{1: x}", "{~: y}", "{[a]: b}", "{true: 1}", "[]", "{}", '""', "null", "~", "0", "-1", "true", "[[]]", '[""]', '{"": ""}', "1.5", '"' + "x" * 5000 + '"', '" "', '"\\n"', "[1, [2, [3]]]",
               '"{{"', '"{{ }}"', '"{% %}"', "!!binary aGk=", "[null]", '"é"', "0x10", "1e400", ".inf", '"-"', '"="']
 TASK_KEYWORDS = ["when", "changed_when", "loop", "register", "vars", "ignore_errors", "name", "check_mode", "become", "become_user"]
 MODULE_PARAMS = {
